@@ -1,4 +1,5 @@
 import Votca.Lemmas.C18Wild
+import Votca.Lemmas.C18Print
 import Votca.Lemmas.C18Iter
 import Votca.Lemmas.C18Index
 /-! # C18 — property theorems
@@ -154,5 +155,44 @@ theorem index_normalised (xs : List Int) : StrictSorted (sortDedup xs) ∧ ∀ v
 
 example : createIndexString [9, 3, 4, 5, 1, 3] = "1 3:5 9".toList := by decide
 example : createIndexVector "1 3:5 9".toList = some [1, 3, 4, 5, 9] := by decide
+
+/-! ## the text layer of integers: what `operator<<` prints, `std::stoi` / `lexical_cast` read back -/
+
+/-- **printing an integer and scanning it back is the identity**, whatever follows the number (as long as it does not start with a
+    digit): the decimal text of `i` is read as `i` and the rest is left unread -/
+theorem scanInt_showInt (i : Int) (rest : List Char) (hr : ∀ c, rest.head? = some c → isDigit c = false) :
+    scanInt (showInt i ++ rest) = some (i, rest) := by
+  cases i with
+  | ofNat n =>
+    rw [showInt_ofNat]
+    obtain ⟨c, cs, hcs, hc⟩ := toDigits_head_digit n
+    have hrun := digitsVal_run (Nat.toDigits 10 n) rest 0 (toDigits_all_digits n) hr
+    rw [hcs] at hrun ⊢
+    rw [List.cons_append, scanInt_digit c (cs ++ rest) hc, ← List.cons_append, hrun, ← hcs, foldDigits_toDigits]
+    rfl
+  | negSucc n =>
+    rw [showInt_negSucc]
+    obtain ⟨c, cs, hcs, hc⟩ := toDigits_head_digit (n + 1)
+    have hrun := digitsVal_run (Nat.toDigits 10 (n + 1)) rest 0 (toDigits_all_digits (n + 1)) hr
+    rw [hcs] at hrun ⊢
+    rw [List.cons_append, List.cons_append, scanInt_minus c (cs ++ rest) hc, ← List.cons_append, hrun, ← hcs, foldDigits_toDigits]
+    simp [Int.negSucc_eq]
+
+
+/-- the printed form of a block `b:s:e` starts with the text of `b` followed by a colon (or is the text of `b` alone): scanning it
+    returns `b` and leaves the rest — the first field of the print / parse round trip of a range, at string level -/
+theorem scanInt_printBlock_first (k : Block) :
+    ∃ rest, scanInt (printBlock k) = some (k.b, rest) ∧ (rest = [] ∨ rest.head? = some ':') := by
+  unfold printBlock
+  split
+  · refine ⟨[], ?_, Or.inl rfl⟩
+    simpa using scanInt_showInt k.b [] (by simp)
+  · split
+    · refine ⟨':' :: showInt k.e, scanInt_showInt k.b _ (by intro c hc; simp at hc; subst hc; decide), Or.inr rfl⟩
+    · refine ⟨':' :: (showInt k.s ++ ':' :: showInt k.e), ?_, Or.inr rfl⟩
+      have := scanInt_showInt k.b (':' :: (showInt k.s ++ ':' :: showInt k.e)) (by intro c hc; simp at hc; subst hc; decide)
+      simpa [List.append_assoc] using this
+
+example : scanInt (showInt (-2048) ++ ":7".toList) = some (-2048, ":7".toList) := by decide
 
 end Votca.C18
